@@ -113,7 +113,7 @@ def check_value(ctx, rng, ty, shape, vals, cases, client=False, budget=6):
         for what, obs, exp in fails:
             ctx.oracle_fail(what, case, obs, exp, size=size)
         if xdr is not None:
-            seen.setdefault(xdr, label)
+            seen.setdefault(xdr, (label, case["obj"]))
         ctx.tags["rep:" + label.split("/")[1]] += 1
         ctx.tags["rep-dtype:" + label.split("/")[0]] += 1
         ctx.count(("rep", ty, tuple(shape), label, repr(vals)[:200]), True)
@@ -122,10 +122,16 @@ def check_value(ctx, rng, ty, shape, vals, cases, client=False, budget=6):
             meta = {"rep": label, "ty": ty, "shape": list(shape), "vals": pack(vals), "obj": case["obj"]}
             cases.append(("xdr-src-enc " + a, "(ok %s)" % hexb(xdr) if xdr is not None else "(err)", meta))
             cases.append(("xdr-src-data " + a, R.data_line(ty, shape, vals), meta))
+            if ty != "String" and label.split("/")[1] in ("C", "0d") and held.size and held.flags.c_contiguous:
+                # machinery check of `storeC` (used by the non-vacuity examples): the model's memory = numpy's
+                cases.append(("xdr-src-store %s %d (%s) (%s)" % (held.dtype.char, held.dtype.byteorder == ">",
+                                                                 " ".join(map(str, shape)), " ".join(map(str, vals))),
+                              "((%s) %s)" % (" ".join(map(str, held.strides)), hexb(held.tobytes())), meta))
     if len(seen) > 1:
-        (x1, l1), (x2, l2) = list(seen.items())[:2]
+        (x1, (l1, o1)), (x2, (l2, o2)) = list(seen.items())[:2]
         ctx.oracle_fail("two representations of the same value are served as different bytes",
-                        {"ty": ty, "shape": list(shape), "vals": pack(vals), "reps": [l1, l2]}, x1.hex(), x2.hex())
+                        {"ty": ty, "shape": list(shape), "vals": pack(vals), "reps": [l1, l2], "objs": [o1, o2]},
+                        x1.hex(), x2.hex())
 
 
 # ---------------------------------------------------------------------------------------------------
@@ -200,20 +206,22 @@ def check_cells(ctx, rng, cases):
     types = [rng.choice(X.TYPES) for _ in range(rng.randint(1, 3))]
     cols = [("c%d" % i, ty) for i, ty in enumerate(types)]
     nrows = rng.choice([1, 1, 2, 3])
-    vals_rows, obj_rows, cell_rows, labels = [], [], [], []
+    vals_rows, obj_rows, cell_rows, labels, big_rows = [], [], [], [], []
     for _ in range(nrows):
-        vr, orow, cr, lr = [], [], [], []
+        vr, orow, cr, lr, br = [], [], [], [], []
         for name, ty in cols:
             v = X.gen_value(rng, ty)
-            label, obj, cell = rng.choice(R.cell_forms(rng, ty, v))
+            label, obj, cell, big = rng.choice(R.cell_forms(rng, ty, v))
             vr.append(v)
             orow.append(obj)
             cr.append(cell)
             lr.append(label)
+            br.append(big)
         vals_rows.append(vr)
         obj_rows.append(orow)
         cell_rows.append(cr)
         labels.append(lr)
+        big_rows.append(br)
     fails, xdr = judge_cells(cols, vals_rows, obj_rows)
     case = {"cells": {"cols": cols, "vals": pack(vals_rows), "objs": [[cell_obj_record(o) for o in r] for r in obj_rows],
                       "labels": labels}}
@@ -228,8 +236,17 @@ def check_cells(ctx, rng, cases):
     if xdr is not None and flat and nrows == 1:
         cases.append(("xdr-src-rec (%s) (%s)" % (" ".join(types), " ".join(cell_rows[0])),
                       "(ok %s)" % hexb(xdr[4:-4]), {"cells": case["cells"]}))
-    for (name, ty), cell in zip(cols, cell_rows[0]):
+    if xdr is not None and not flat and nrows == 1:
+        cases.append(("xdr-src-recg (%s)" % " ".join("(%d %s)" % (b, c) for b, c in zip(big_rows[0], cell_rows[0])),
+                      "(ok %s)" % hexb(xdr[4:-4]), {"cells": case["cells"]}))
+    for (name, ty), cell, obj, big, lab in zip(cols, cell_rows[0], obj_rows[0], big_rows[0], labels[0]):
         cases.append(("xdr-src-cellty " + cell, ty, {"cells": case["cells"]}))
+        if lab != "np.bytes_":
+            # `np.array(value)` (BaseType._set_data; the general path): the model's 0-d array = numpy's
+            a = np.array(obj)
+            chars = a.dtype.itemsize if a.dtype.char == "S" else a.dtype.itemsize // 4 if a.dtype.char == "U" else 0
+            cases.append(("xdr-src-cellarr %d %s" % (big, cell), "(%s %d %s)" % (a.dtype.char, chars, hexb(a.tobytes())),
+                          {"cells": case["cells"]}))
 
 
 # ---------------------------------------------------------------------------------------------------
@@ -267,8 +284,9 @@ def replay_case(c):
         vals = unpack_vals(c["ty"], c["vals"])
         fails, _, _ = judge_obj(c["ty"], tuple(c["shape"]), vals, obj_rebuild(c["obj"]), c.get("client", False))
     else:
-        print("two-representation case: replay its members")
-        return False
+        got = [R.serve_obj(obj_rebuild(o))[3] for o in c["objs"]]
+        fails = [] if got[0] is not None and got[0] == got[1] else \
+            [("two representations of the same value are served as different bytes", (got[0] or b"").hex(), (got[1] or b"").hex())]
     for what, obs, exp in fails:
         print("FAILS:", what, "| observed", str(obs)[:300], "| expected", str(exp)[:300])
     return not fails
